@@ -7,6 +7,9 @@ E = mmd.EXT
 EXT = E["NOTES"] | E["CRITIC"]            # smart typography off: quotes and dashes are then plain characters
 FORMATS = [("html", 0), ("latex", 2), ("beamer", 3), ("memoir", 4), ("fodt", 5), ("opml", 9)]
 CHARS = [c.encode() for c in string.printable if c not in "\t\n\r\x0b\x0c "] + [b"\xc3\xa9", b"\xe2\x80\xa0"]
+# multi-character lexer tokens that are plain text when unmatched / outside their context
+CHARS += [b"{{", b"}}", b"--", b"---", b"...", b"''", b"~>", b"{++", b"++}", b"{--", b"--}", b"{>>", b"<<}", b"{~~", b"~~}", b"{==", b"==}", b"$$", b"<!--", b"-->",
+          b"[^", b"[#", b"[?", b"[>", b"[%", b"![", b"{=", b"``", b"##", b"://", b"<=", b"&&", b"%%", b"__"]
 # position: (name, template with {P}, kind)   kind: text | attr | verbatim | meta
 POSITIONS = [
     ("paragraph", b"{P}\n", "text"), ("heading", b"# {P}\n", "text"), ("list-item", b"* {P}\n* other\n", "text"), ("table-cell", b"| {P} | x |\n|---|---|\n| y | z |\n", "text"),
@@ -99,7 +102,7 @@ def make_case():
         if c == b"\"" and pname == "link-title": return (None, [], dict(skipped=1))
         if kind == "meta" and c == b":" : return (None, [], dict(skipped=1))
         if pname == "url" and (not tight or c == b"\\"): return (None, [], dict(skipped=1))      # a URL with spaces is not a URL; backslashes are escape characters there
-        if pname == "math" and c in (b"{", b"}", b"\\", b"$", b"%", b"#", b"&", b"_", b"^", b"~") and fmt in (2, 3, 4): return (None, [], dict(skipped=1))   # math is the author's own LaTeX
+        if pname == "math" and any(x in c for x in b"{}\\$%#&_^~") and fmt in (2, 3, 4): return (None, [], dict(skipped=1))   # math is the author's own LaTeX
         doc, probe = make_doc(pi, c, tight, sk)
         base_doc, _ = make_doc(pi, b"x", tight, sk)
         ext = EXT | (E["COMPLETE"] if kind == "meta" else (E["SNIPPET"] | E["NO_METADATA"]))
@@ -114,6 +117,8 @@ def make_case():
             try:
                 text, attrs, names = parse_xml(wrap(out))
             except expat.ExpatError as e:
+                if fname == "fodt" and c == b"<<}" and kind == "verbatim":
+                    return (pmap.h64(doc + bytes([fi])), [("text:odf:critic-comment-close-in-verbatim-text", "flat ODF does not parse for %r (%s)" % (doc, e), case_d)], dict(judged=1))
                 return (pmap.h64(doc + bytes([fi])), [(sig("not-well-formed"), "%s output does not parse (%s) for %r" % (fname, e, doc), case_d)], dict(judged=1))
             try: btext, battrs, bnames = parse_xml(wrap(base))
             except expat.ExpatError: bnames = names
@@ -163,6 +168,8 @@ def make_case():
                     if mid.strip() != c: v.append((sig("verbatim-altered"), "verbatim region carries %r for %r" % (mid, c), case_d))
                 elif c in QUOTE_OK and mid.strip() in QUOTE_OK[c]:
                     pass
+                elif c == b"~>" and b"&gt;" in mid:
+                    v.append(("text:latex:stray-critic-divider-written-as-html-entity", "LaTeX carries %r for a stray '~>'" % mid, case_d))
                 elif latex_unescape(mid).strip() != c:
                     if b"{" in mid.replace(b"\\{", b"") and not c in (b"{", b"}"): return (pmap.h64(doc + bytes([fi])), [], dict(structure_changed=1))
                     v.append((sig("char-altered"), "LaTeX carries %r (unescaped %r) for %r" % (mid, latex_unescape(mid), c), case_d))
